@@ -1,1 +1,11 @@
-// (placeholder for later additions)
+// WalLogStore: the in-memory store (tokio mutex elided) + the WAL it persists records to (ghost record list)
+pub struct WalRecLog { pub persisted: Ghost<Seq<WalLogRecord>> }
+pub struct WalLogStore { pub inner: MemLogStoreInner, pub wal: WalRecLog }
+// WalLogStore::persist_record: bincode-serialise + WriteAheadLog::append: on Ok the record is the next one recover_from_wal will
+// decode (A-BINCODE round trip + C01 for the WAL), on Err nothing was appended
+#[verifier::external_body]
+pub fn persist_record(wal: &mut WalRecLog, record: &WalLogRecord) -> (r: IoResult<()>)
+    ensures r is Ok ==> final(wal).persisted@ == old(wal).persisted@.push(*record), r is Err ==> final(wal).persisted == old(wal).persisted
+{ unimplemented!() }
+/// what the next start will rebuild (replay of everything persisted) is what the running store holds
+pub open spec fn in_sync(s: WalLogStore, s_init: St) -> bool { replayed(s.wal.persisted@, s_init, st(s.inner)) }
